@@ -8,6 +8,7 @@ end to end (top level, block mapping value, flow sequence item) and the type
 and value of what was constructed are compared with the resolved tag.
 """
 import itertools
+import re
 import math
 from typing import Any, Dict, List
 
@@ -55,17 +56,71 @@ def requirements(tier):
     if tier == 'quick':
         return {'resolver_queries': 500000, 'ref_float': 5000, 'ref_bool': 6,
                 'e2e_loads': 20000, 'near_miss_e2e': 3000,
+                'custom_resolver_queries': 10000, 'e2e_wraptop': 5000,
                 'bucket_tTfF': 4, 'bucket_number': 10}
     return {'resolver_queries': 5000000, 'ref_float': 35000, 'ref_bool': 6,
             'e2e_loads': 100000, 'near_miss_e2e': 10000,
+            'custom_resolver_queries': 30000, 'e2e_wraptop': 15000,
             'bucket_tTfF': 4, 'bucket_number': 10}
 
 
+class Wrap:
+    """A user class with a short form: any scalar stands for
+    {value: <that scalar>}.  Its savorizer sees the scalar as it was resolved
+    and records the Python type Node.get_value() gives for it."""
+    seen = []
+
+    def __init__(self, value: Any) -> None:
+        self.value = value
+
+    @classmethod
+    def _yatiml_recognize(cls, node):
+        pass
+
+    @classmethod
+    def _yatiml_savorize(cls, node):
+        if node.is_scalar():
+            kinds = [t.__name__ for t in (bool, float, int, str)
+                     if node.is_scalar(t)]
+            try:
+                v = node.get_value()
+            except yatiml.RecognitionError:
+                raise
+            Wrap.seen.append((kinds, type(v).__name__))
+            node.make_mapping()
+            node.set_attribute('value', v)
+
+
+OCTAL = re.compile(r'^0o[0-7]+$')
+
+
 class Env:
-    def __init__(self):
+    """Load functions and a loader instance to query.
+
+    mode 'fresh': nothing special.  'custom-before': the loader class got an
+    implicit resolver of its own (PyYAML's add_implicit_resolver, for 0o17
+    integers) before its first load.  'custom-after': the same, added after
+    the first load.  Strings over the alphabets used here never match the
+    added pattern, so the expectations are the same in every mode."""
+
+    def __init__(self, mode='fresh'):
+        self.mode = mode
         self.load_any = yatiml.load_function()
         self.load_map = yatiml.load_function(Dict[str, Any])
         self.load_seq = yatiml.load_function(List[Any])
+        self.load_wrap = yatiml.load_function(Wrap)
+        self.load_wraps = yatiml.load_function(Dict[str, Wrap], Wrap)
+        fns = (self.load_any, self.load_map, self.load_seq, self.load_wrap,
+               self.load_wraps)
+        if mode == 'custom-after':
+            for f in fns:
+                try:
+                    f('[1, a, 1.5, true]')
+                except yatiml.RecognitionError:
+                    pass
+        if mode != 'fresh':
+            for f in fns:
+                f.loader.add_implicit_resolver(S.TAG_INT, OCTAL, ['0'])
         self.loader = self.load_any.loader('')
         self.resolve = self.loader.resolve
 
@@ -73,14 +128,13 @@ class Env:
         return self.resolve(yaml.ScalarNode, s, (True, False))
 
 
-_env = None
+_env = {}
 
 
-def get_env():
-    global _env
-    if _env is None:
-        _env = Env()
-    return _env
+def get_env(mode='fresh'):
+    if mode not in _env:
+        _env[mode] = Env(mode)
+    return _env[mode]
 
 
 def plain_in_context(text, s, pick):
@@ -107,6 +161,13 @@ CONTEXTS = [
      lambda n: n.value[0] if isinstance(n, yaml.SequenceNode)
      and len(n.value) == 1 else None,
      lambda v: v[0], 'load_seq'),
+    # a user class whose short form is any scalar: the scalar reaches the
+    # class's savorizer typed as it was resolved
+    ('wraptop', lambda s: s, lambda n: n, lambda v: v.value, 'load_wrap'),
+    ('wrapval', lambda s: 'k: ' + s + '\n',
+     lambda n: n.value[0][1] if isinstance(n, yaml.MappingNode)
+     and len(n.value) == 1 else None,
+     lambda v: v['k'].value, 'load_wraps'),
 ]
 
 
@@ -136,6 +197,8 @@ def check_resolver(ctx, s, env):
     ctx.count('resolver_queries')
     tag = env.tag_of(s)
     rf, rb = S.is_float12(s), S.is_bool12(s)
+    sfx = '' if env.mode == 'fresh' else \
+        ' loader-class-with-own-implicit-resolver/' + env.mode
     if rf:
         ctx.count('ref_float')
     if rb:
@@ -150,25 +213,25 @@ def check_resolver(ctx, s, env):
     if tag == S.TAG_FLOAT and not rf:
         ctx.violation(
             'C09 resolver float-overaccept feature=%s' % feature(
-                s, rf, S.is_float12),
+                s, rf, S.is_float12) + sfx,
             'plain scalar %r resolves to float but is not a YAML 1.2 float'
-            % s, {'s': s})
+            % s, {'s': s, 'mode': env.mode})
     elif tag != S.TAG_FLOAT and rf:
         ctx.violation(
-            'C09 resolver float-underaccept got=%s' % tag.rsplit(':', 1)[-1],
+            'C09 resolver float-underaccept got=%s' % tag.rsplit(':', 1)[-1] + sfx,
             'plain scalar %r is a YAML 1.2 float but resolves to %s'
-            % (s, tag), {'s': s})
+            % (s, tag), {'s': s, 'mode': env.mode})
     if tag == S.TAG_BOOL and not rb:
         ctx.violation(
             'C09 resolver bool-overaccept feature=%s' % feature(
-                s, rb, S.is_bool12),
+                s, rb, S.is_bool12) + sfx,
             'plain scalar %r resolves to bool but is not a YAML 1.2 bool'
-            % s, {'s': s})
+            % s, {'s': s, 'mode': env.mode})
     elif tag != S.TAG_BOOL and rb:
         ctx.violation(
-            'C09 resolver bool-underaccept got=%s' % tag.rsplit(':', 1)[-1],
+            'C09 resolver bool-underaccept got=%s' % tag.rsplit(':', 1)[-1] + sfx,
             'plain scalar %r is a YAML 1.2 bool but resolves to %s'
-            % (s, tag), {'s': s})
+            % (s, tag), {'s': s, 'mode': env.mode})
     return (rf or rb or tag in (S.TAG_FLOAT, S.TAG_BOOL)), tag
 
 
@@ -179,7 +242,11 @@ def check_e2e(ctx, s, env, near=False):
     if S.is_signed_nan(s):
         return
     done = False
+    wrap_too = env.mode == 'fresh' and (
+        rf or rb or tag in (S.TAG_FLOAT, S.TAG_BOOL) or len(s) % 4 == 0)
     for name, mk, pick, unwrap, fn in CONTEXTS:
+        if name.startswith('wrap') and not wrap_too:
+            continue
         text = mk(s)
         if not plain_in_context(text, s, pick):
             ctx.count('e2e_not_plain_' + name)
@@ -192,7 +259,12 @@ def check_e2e(ctx, s, env, near=False):
             exc = None
         except Exception as e:      # noqa
             v, exc = None, e
-        case = {'s': s, 'context': name}
+        case = {'s': s, 'context': name, 'mode': env.mode}
+        if name.startswith('wrap'):
+            name = name + ' (short form of a user class)'
+        if env.mode != 'fresh':
+            name = name + ' loader-class-with-own-implicit-resolver/' + \
+                env.mode
         if rf:
             want = S.float12_value(s)
             if exc is not None or not S.same_float(v, want):
@@ -394,6 +466,13 @@ def shard(ctx):
         for s in enumerate_space(ctx, alphabet, maxlen):
             interesting, tag = check_resolver(ctx, s, env)
             k += 1
+            if (interesting and k % 3 == 0) or k % rest_every == 1:
+                for mode in ('custom-before', 'custom-after')[
+                        :1 if k % 4 else 2]:
+                    env2 = get_env(mode)
+                    ctx.count('custom_resolver_queries')
+                    check_resolver(ctx, s, env2)
+                    check_e2e(ctx, s, env2)
             if interesting:
                 check_e2e(ctx, s, env)
                 if len(ctx.samples) < 3:
@@ -416,6 +495,11 @@ def shard(ctx):
             continue
         check_resolver(ctx, s, env)
         check_e2e(ctx, s, env, near=True)
+        if stable_hash(s + 'm') % 3 == 0:
+            env2 = get_env(('custom-before', 'custom-after')[len(s) % 2])
+            ctx.count('custom_resolver_queries')
+            check_resolver(ctx, s, env2)
+            check_e2e(ctx, s, env2)
         if len(ctx.samples) < 5:
             ctx.sample({'s': s, 'resolved': env.tag_of(s),
                         'ref_float': S.is_float12(s)}, 'near-miss')
@@ -475,7 +559,7 @@ def shard(ctx):
 
 
 def replay(ctx, case):
-    env = get_env()
+    env = get_env(case.get('mode', 'fresh'))
     check_resolver(ctx, case['s'], env)
     if case.get('two'):
         check_two_styles(ctx, case['s'], env)
